@@ -91,12 +91,16 @@ func (c *wsConn) tryDelete(s *Subscription) {
 		return gcStateDelete
 	})
 
+	// Dispose before unsending, as a disposed subscription counts down the
+	// indirectsent of the subscriptions it referenced, while Unsend resets it.
 	for rid, ref := range refs {
-		switch ref.state {
-		case gcStateDelete:
+		if ref.state == gcStateDelete {
 			ref.sub.Dispose()
 			delete(c.subs, rid)
-		case gcStateUnsend:
+		}
+	}
+	for _, ref := range refs {
+		if ref.state == gcStateUnsend {
 			ref.sub.Unsend()
 		}
 	}
